@@ -26,7 +26,8 @@ RULE = ("correspondence: one driver line per (function, transaction class, trans
         "line; non-trivial = at least one hash type yields a digest/bytes rather than an exception")
 PARTIAL = ["'computing a hash never modifies the transaction': a pure model cannot alias; checked directly on the "
            "implementation (as_bin(include_unspents) + object identities before/after every entry point), not a theorem",
-           "script codes holding an undecodable instruction: theorems exclude them (consensus-unobservable); known finding",
+           "legacy digest on script codes with an undecodable instruction: equal to Core's original FindAndDelete formulation "
+           "(all scripts); Core's streaming SerializeScriptCode differs from that formulation there (consensus-unobservable)",
            "negative Python ints in transaction fields / hash_type are outside the model (N)"]
 TRUSTED = ["struct.pack '<L' '<Q' '<H' '<B' modelled as fixed-width little-endian with struct.error on overflow (Base/Varint.v)",
            "Spec/SighashCore.v is a transcription of Bitcoin Core's GetScriptOp / FindAndDelete / CTransactionSignatureSerializer "
@@ -215,8 +216,10 @@ R_NULL_OUT = ((1 << 64) - 1, b"")
 R_ONE = b"\x01" + b"\x00" * 31
 
 
-def r_legacy(script, t, n_in, ht):
-    """-> ("C", 32 bytes) | ("P", preimage)"""
+def r_legacy(script, t, n_in, ht, streaming=False):
+    """-> ("C", 32 bytes) | ("P", preimage).  streaming=False: the original formulation (FindAndDelete of
+    OP_CODESEPARATOR, script serialized whole); True: today's SerializeScriptCode.  Equal on decodable scripts."""
+    code = r_ser_script_code(script) if streaming else (lambda f: r_compact(len(f)) + f)(r_fad(b"\xab", script))
     vin, vout = t["ins"], t["outs"]
     acp = (ht & 0x80) != 0
     single = (ht & 31) == 3
@@ -232,7 +235,7 @@ def r_legacy(script, t, n_in, ht):
         k2 = n_in if acp else k
         h, i, _s, q = vin[k2]
         out += h + r_le(i, 4)
-        out += r_ser_script_code(script) if k2 == n_in else r_compact(0)
+        out += code if k2 == n_in else r_compact(0)
         out += r_le(0, 4) if (k2 != n_in and (single or none)) else r_le(q, 4)
     n_outputs = 0 if none else (n_in + 1 if single else len(vout))
     out += r_compact(n_outputs)
@@ -611,32 +614,21 @@ def chk_single_bug(coin, t, script, idx, hts):
 def chk_fad(script, sub, expected):
     got = BSC.delete_subscript(script, sub)
     if got != expected:
-        return {"kind": "find-and-delete", "got": got.hex(), "required": expected.hex(),
-                "rewalk_hit": BSC.delete_subscript(r_undecodable_tail(script), sub) != r_undecodable_tail(script)}
+        return {"kind": "find-and-delete", "got": got.hex(), "required": expected.hex(), "script_decodable": r_decodable(script)}
     return None
 
 
 def chk_delsig(script, sg, expected):
     got = BSC(None)._delete_signature(script, sg)
     if got != expected:
-        tail = r_undecodable_tail(script)
-        return {"kind": "delete-signature", "got": got.hex(), "required": expected.hex(),
-                "rewalk_hit": BSC(None)._delete_signature(tail, sg) != tail}
+        return {"kind": "delete-signature", "got": got.hex(), "required": expected.hex(), "script_decodable": r_decodable(script)}
     return None
 
 
 def chk_script_code(script, begin, sigs, expected):
     got = impl_sighash_f_script(script, begin, sigs)
     if got != expected:
-        sc = script[begin:]
-        tail_hit = False
-        cur = sc
-        for sg in sigs:
-            tl = r_undecodable_tail(cur)
-            if BSC(None)._delete_signature(tl, sg) != tl:
-                tail_hit = True
-            cur = BSC(None)._delete_signature(cur, sg)
-        return {"kind": "script-code", "got": got.hex(), "required": expected.hex(), "rewalk_hit": tail_hit}
+        return {"kind": "script-code", "got": got.hex(), "required": expected.hex()}
     return None
 
 
@@ -823,6 +815,13 @@ def _prop_chunk(rng, tier, use_driver, n_scen, n_fad, extras):
         amount = t["uns"][idx][0]
         k_leg = spec.ask("spec_legacy %s %s i%x %s" % (toks, arg(script), idx, hts_arg(hts)),
                          (lambda t=t, script=script, idx=idx, hts=hts: "[" + " ".join(_core(r_legacy(script, t, idx, h)) for h in hts) + "]"))
+        if r_decodable(script):
+            k_str = spec.ask("spec_legacy_streaming %s %s i%x %s" % (toks, arg(script), idx, hts_arg(hts)),
+                             (lambda t=t, script=script, idx=idx, hts=hts:
+                              "[" + " ".join(_core(r_legacy(script, t, idx, h, streaming=True)) for h in hts) + "]"))
+            plan.append(("core_formulations_agree", {"tx": tx_json(t), "script": script.hex(), "idx": idx, "hts": hts},
+                         (lambda k_str=k_str, k_leg=k_leg: None if spec.get(k_str) == spec.get(k_leg) else
+                          {"kind": "spec-formulations-differ-on-decodable-script", "streaming": spec.get(k_str)[:300], "old": spec.get(k_leg)[:300]})))
         k_bd = spec.ask("spec_bip143 d %s %s i%x i%x %s" % (toks, arg(script), idx, amount, hts_arg(hts)),
                         (lambda t=t, script=script, idx=idx, hts=hts, amount=amount:
                          "[" + " ".join(canon(r_bip143(dsha, script, t, idx, amount, h)) for h in hts) + "]"))
@@ -928,8 +927,8 @@ def _prop_chunk(rng, tier, use_driver, n_scen, n_fad, extras):
             wrap = True
         else:
             code = r_fad(r_push(sg), sc)
-            k = spec.ask("spec_legacy %s %s i%x i%x" % (tx_tokens(t), arg(code), idx, ht),
-                         (lambda t=t, code=code, idx=idx, ht=ht: _core(r_legacy(code, t, idx, ht))))
+            k = spec.ask("spec_legacy_streaming %s %s i%x i%x" % (tx_tokens(t), arg(code), idx, ht),
+                         (lambda t=t, code=code, idx=idx, ht=ht: _core(r_legacy(code, t, idx, ht, streaming=True))))
             wrap = False
 
         def th(k=k, wrap=wrap, sg=sg, pub=pub, kind=kind, ht=ht):
@@ -956,17 +955,10 @@ def _prop_chunk(rng, tier, use_driver, n_scen, n_fad, extras):
 
 # ================================================================================================
 def classify(pc, r):
-    k = r.get("kind")
-    if pc.name == "legacy_vs_spec" and k == "legacy-digest" and r.get("script_decodable") is False:
-        return "undecodable-script-code"
-    if pc.name in ("fad_vs_spec", "delsig_vs_spec", "script_code_vs_spec") and r.get("rewalk_hit"):
-        return "undecodable-script-code"
-    return None
+    return None          # no open finding is left for C04 (2ba5b6d and 50939fb repaired both)
 
 
-KNOWN_REPLAYS = {
-    "undecodable-script-code": lambda: chk_fad(bytes.fromhex("ac0500ab"), b"\xab", r_fad(b"\xab", bytes.fromhex("ac0500ab"))),
-}
+KNOWN_REPLAYS = {}
 
 
 def _legacy_exp_ref(t, script, idx, hts, H):
